@@ -28,6 +28,7 @@ type Job struct {
 	BufSize  int    `json:"buf_size"`  // runtime.DefaultBufferSize for this process (first job decides)
 	FlushErr bool   `json:"flush_err"` // the writer has a Flush() error method that fails
 	Bufio    bool   `json:"bufio"`     // render into the caller's own long-lived *bufio.Writer (8 KB), flushed by the caller afterwards
+	Nonce    string `json:"nonce"`     // the render context carries this CSP nonce (templ.WithNonce)
 	// not a render: write a file (a development-mode text file changing under a running program)
 	WriteFile string `json:"write_file"`
 	Content   string `json:"content"`
@@ -121,6 +122,9 @@ func RenderJob(reg map[string]func(*A) templ.Component, j Job) (res Result) {
 	a := Valuations[j.V%len(Valuations)]
 	a.FailID = j.FailExpr
 	ctx := context.Background()
+	if j.Nonce != "" {
+		ctx = templ.WithNonce(ctx, j.Nonce)
+	}
 	if j.Cancel {
 		c, cancel := context.WithCancel(ctx)
 		cancel()
